@@ -69,13 +69,14 @@ Lemma heap_alloc_raw_sim c hs he m bins_c chunks bins_a live n :
   raw_inv hs he chunks bins_a live -> Rep he m bins_c chunks bins_a -> he - hs <= h_size c -> 0 <= n < two64 ->
   exists bins_c' m',
     heap_alloc_raw c bins_c m n = HOk (bins_c', m', snd (ha_alloc_raw chunks bins_a n)) /\
-    Rep he m' bins_c' (fst (fst (ha_alloc_raw chunks bins_a n))) (snd (fst (ha_alloc_raw chunks bins_a n))).
+    Rep he m' bins_c' (fst (fst (ha_alloc_raw chunks bins_a n))) (snd (fst (ha_alloc_raw chunks bins_a n))) /\
+    hframe (hdrs2 he chunks (fst (fst (ha_alloc_raw chunks bins_a n)))) m m'.
 Proof.
   intros Hinv Hrep Hsz Hn.
   pose proof (MI_of_inv _ _ _ _ _ _ _ Hinv Hrep) as HM.
   unfold heap_alloc_raw, ha_alloc_raw.
-  destruct (n =? 0) eqn:E0; [eexists; eexists; split; [reflexivity | exact Hrep]|].
-  destruct (size_too_large n) eqn:Etl; [eexists; eexists; split; [reflexivity | exact Hrep]|].
+  destruct (n =? 0) eqn:E0; [eexists; eexists; split; [reflexivity | split; [exact Hrep | apply hframe_refl]]|].
+  destruct (size_too_large n) eqn:Etl; [eexists; eexists; split; [reflexivity | split; [exact Hrep | apply hframe_refl]]|].
   apply Z.eqb_neq in E0. apply size_too_large_spec in Etl.
   destruct (aligned_size_spec n ltac:(lia)) as (Hs1 & Hs2 & Hs3).
   set (size := aligned_size n) in *.
@@ -88,7 +89,7 @@ Proof.
     destruct (a_pass (Some _) _ chunks bins_a _ size) as [[a1 b1]|] eqn:P1.
     - inversion Hra; subst. apply a_pass_spec in P1. destruct P1 as (P & Q). split; [lia | exact Q].
     - apply a_pass_spec in Hra. destruct Hra as (P & Q). split; [lia | exact Q]. }
-  destruct r as [[a bi]|] eqn:Er; [|eexists; eexists; split; [reflexivity | exact Hrep]].
+  destruct r as [[a bi]|] eqn:Er; [|eexists; eexists; split; [reflexivity | split; [exact Hrep | apply hframe_refl]]].
   destruct (Hr a bi eq_refl) as (Hbi & Hin & Hfit). clear Hr.
   pose proof Hinv as [Hpos Htop Ht Hal Hb Hl].
   destruct Hb as (HL & Hb). destruct (Hb bi Hbi) as [_ Hfree]. pose proof Hin as Hin0. apply Hfree in Hin.
@@ -149,7 +150,22 @@ Proof.
     rewrite (w64_small (a + NODE)) by lia. rewrite (w64_small (a + NODE + size)) by lia.
     rewrite (w64_small (c_sz x - size)) by lia. rewrite (w64_small (c_sz x - size - NODE)) by lia.
     fold sp. fold rest.
-    eexists. eexists. split; [reflexivity|]. exact (mi_rep _ _ _ _ _ _ HM7).
+    eexists. eexists. split; [reflexivity|]. split; [exact (mi_rep _ _ _ _ _ _ HM7)|].
+    set (S := hdrs2 he (pre ++ x :: post) (pre ++ mkchunk a size true :: mkchunk sp rest false :: post)).
+    assert (Sa : S a) by (left; left; apply in_map; exact Hx).
+    assert (Ssp : S sp) by (right; left; rewrite map_app; apply in_or_app; right; right; left; reflexivity).
+    assert (Snx : S nx).
+    { left. pose proof (tiled_next _ _ _ _ _ Ht) as Hnx. fold a in Hnx. fold nx in Hnx. rewrite <- Hnx. apply next_is_hdr. }
+    assert (Sall : forall b, is_hdr he (pre ++ x1 :: x2 :: post) b -> S b).
+    { intros b0 Hb0. right. unfold x1, x2 in Hb0. clear - Hb0. hdr_solve. }
+    apply (hframe_trans S m (unlink_mem m5 a)); [|apply hframe_set_used; exact Sa].
+    apply (hframe_trans S m m5); [|apply (M1_hframe S hs he m5 bc1 _ _ bi a HM5 Hbi Hain1); exact Sall].
+    apply (hframe_trans S m m4); [|apply (M2_hframe S hs he m4 bins_c _ bins_a x2 bc1 m5 HM4 Hx2in eq_refl Hspnot Hadd); exact Sall].
+    unfold m4.
+    apply (hframe_step S nx 8); [exact Snx | hk_solve | lia|].
+    apply (hframe_step S sp 8); [exact Ssp | hk_solve | lia|].
+    apply (hframe_step S sp 0); [exact Ssp | hk_solve | lia|].
+    apply (hframe_step S a 0); [exact Sa | hk_solve | lia|]. apply hframe_refl.
   - (* no split *)
     destruct (M1_unlink hs he m bins_c _ _ bi a HM Hbi Hin0) as (bc1 & Hrm & HM1 & _).
     rewrite Hrm.
@@ -158,7 +174,11 @@ Proof.
     pose proof (M_reflag hs he (unlink_mem m a) (set_used (unlink_mem m a) a) bc1 pre x post _ true HM1 Hanot
                   (fun w W1 W2 => set_used_frame _ a w W1 W2) (fun _ => set_used_is_used _ a)) as HM2.
     cbn [fst snd]. fold a. rewrite (w64_small (a + NODE)) by lia.
-    eexists. eexists. split; [reflexivity|]. exact (mi_rep _ _ _ _ _ _ HM2).
+    eexists. eexists. split; [reflexivity|]. split; [exact (mi_rep _ _ _ _ _ _ HM2)|].
+    set (S := hdrs2 he (pre ++ x :: post) (pre ++ mkchunk a (c_sz x) true :: post)).
+    assert (Sa : S a) by (left; left; apply in_map; exact Hx).
+    apply (hframe_trans S m (unlink_mem m a)); [|apply hframe_set_used; exact Sa].
+    apply (M1_hframe S hs he m bins_c _ _ bi a HM Hbi Hin0). intros b0 Hb0. left. exact Hb0.
 Qed.
 
 (* ---------- dealloc ---------- *)
@@ -201,7 +221,8 @@ Lemma tail_sim hs he m bins_c pre hc post bins_a :
      if c_used nx then is_used m (c_addr nx) = true
      else In (c_addr nx) (bin_nth bins_a (get_bin_index (c_sz nx)))) ->
   exists bins_c' m', c_tail bins_c m (c_addr hc) (c_addr hc + NODE + c_sz hc) = (bins_c', m') /\
-    Rep he m' bins_c' (fst (a_tail pre hc post bins_a)) (snd (a_tail pre hc post bins_a)).
+    Rep he m' bins_c' (fst (a_tail pre hc post bins_a)) (snd (a_tail pre hc post bins_a)) /\
+    hframe (hdrs2 he (pre ++ hc :: post) (fst (a_tail pre hc post bins_a))) m m'.
 Proof.
   intros HM Hfree Hnot Hnext. pose proof HM as [Hpos Htop Ht Hal Hmem Hgood Hrep].
   pose proof NODE_eq as HN. pose proof MIN_range as HMr.
@@ -216,13 +237,17 @@ Proof.
   - (* the end node follows *)
     cbn [map hd] in Hnx. rewrite <- Hnx. destruct (rp_end _ _ _ _ _ Hrep) as [_ Eu]. rewrite Eu. cbn [negb].
     destruct (M2_push hs he m bins_c _ bins_a hc HM Hhin Hfree Hnot) as (bc1 & m1 & Hadd & HM1 & _).
-    fold a in Hadd. rewrite Hadd. eexists. eexists. split; [reflexivity|]. cbn [fst snd]. exact (mi_rep _ _ _ _ _ _ HM1).
+    pose proof Hadd as Hadd0.
+    fold a in Hadd. rewrite Hadd. eexists. eexists. split; [reflexivity|]. cbn [fst snd]. split; [exact (mi_rep _ _ _ _ _ _ HM1)|].
+    apply (M2_hframe _ hs he m bins_c _ bins_a hc bc1 m1 HM Hhin Hfree Hnot Hadd0). intros b0 Hb0. left. exact Hb0.
   - cbn [map hd] in Hnx. rewrite <- Hnx. specialize (Hnext nx post' eq_refl).
     assert (Hnin : In nx (pre ++ hc :: nx :: post')) by (apply in_or_app; right; right; left; reflexivity).
     destruct (c_used nx) eqn:Eunx.
     + rewrite Hnext. cbn [negb].
       destruct (M2_push hs he m bins_c _ bins_a hc HM Hhin Hfree Hnot) as (bc1 & m1 & Hadd & HM1 & _).
-      fold a in Hadd. rewrite Hadd. eexists. eexists. split; [reflexivity|]. cbn [fst snd]. exact (mi_rep _ _ _ _ _ _ HM1).
+      pose proof Hadd as Hadd0.
+      fold a in Hadd. rewrite Hadd. eexists. eexists. split; [reflexivity|]. cbn [fst snd]. split; [exact (mi_rep _ _ _ _ _ _ HM1)|].
+      apply (M2_hframe _ hs he m bins_c _ bins_a hc bc1 m1 HM Hhin Hfree Hnot Hadd0). intros b0 Hb0. left. exact Hb0.
     + pose proof (get_bin_index_range (c_sz nx)) as Hbi.
       rewrite (mi_member_not_used _ _ _ _ _ _ HM _ _ Hbi Hnext). cbn [negb].
       unfold remove_node. rewrite (mi_size _ _ _ _ _ _ HM nx Hnin).
@@ -255,9 +280,24 @@ Proof.
           apply (remove_addr_in (c_addr nx) _ a Hnd) in Hc. tauto.
         - rewrite bin_nth_upd_other in Hc by lia. exact Hc. }
       destruct (M2_push hs he m3 bc1 _ _ h2 HM3 Hh2in eq_refl Hh2not) as (bc2 & m4 & Hadd & HM4 & _).
+      pose proof Hadd as Hadd0.
       cbn [c_addr c_sz h2] in Hadd, HM4. rewrite Hadd.
       eexists. eexists. split; [reflexivity|]. cbn [fst snd c_addr c_sz]. fold a.
-      exact (mi_rep _ _ _ _ _ _ HM4).
+      split; [exact (mi_rep _ _ _ _ _ _ HM4)|].
+      set (S := hdrs2 he (pre ++ hc :: nx :: post') (pre ++ mkchunk a (c_sz hc + NODE + c_sz nx) false :: post')).
+      assert (Sold : forall b, is_hdr he (pre ++ hc :: nx :: post') b -> S b) by (intros b0 Hb0; left; exact Hb0).
+      assert (Sa : S a) by (apply Sold; left; apply in_map; exact Hhin).
+      assert (Snn : S (a + NODE + nsz)).
+      { apply Sold. assert (Ht' : tiled hs ((pre ++ [hc]) ++ nx :: post') he) by (rewrite <- app_assoc; exact Ht).
+        pose proof (tiled_next _ _ _ _ _ Ht') as Hnn.
+        replace (a + NODE + nsz) with (c_addr nx + NODE + c_sz nx) by (unfold nsz; lia). rewrite <- Hnn.
+        pose proof (next_is_hdr he (pre ++ [hc]) nx post') as Hq. rewrite <- app_assoc in Hq. exact Hq. }
+      apply (hframe_trans S m m3).
+      * unfold m3. apply (hframe_step S (a + NODE + nsz) 8); [exact Snn | hk_solve | lia|].
+        apply (hframe_step S a 0); [exact Sa | hk_solve | lia|].
+        apply (M1_hframe S hs he m bins_c _ _ _ _ HM Hbi Hnext). exact Sold.
+      * apply (M2_hframe S hs he m3 bc1 _ _ h2 bc2 m4 HM3 Hh2in eq_refl Hh2not Hadd0).
+        intros b0 Hb0. right. unfold h2 in Hb0. clear - Hb0. unfold nsz in *. hdr_solve.
 Qed.
 
 Lemma padj_last m e : forall l p, padj_chain m p l e -> n_prev_adj m e = last l p.
@@ -282,7 +322,7 @@ Lemma heap_dealloc_raw_sim hs he m bins_c chunks bins_a live i b :
   exists bins_c' m' ch' ba',
     ha_dealloc_raw chunks bins_a (b_addr b) = HOk (ch', ba') /\
     heap_dealloc_raw bins_c m (b_addr b) = HOk (bins_c', m') /\
-    Rep he m' bins_c' ch' ba'.
+    Rep he m' bins_c' ch' ba' /\ hframe (hdrs2 he chunks ch') m m'.
 Proof.
   intros Hinv Hrep Hn.
   pose proof (MI_of_inv _ _ _ _ _ _ _ Hinv Hrep) as HM.
@@ -324,10 +364,13 @@ Proof.
   (* case: no merge with the previous chunk *)
   assert (Hnomerge :
     exists bins_c' m', c_tail bins_c m a (a + NODE + c_sz x) = (bins_c', m') /\
-      Rep he m' bins_c' (fst (a_tail pre (mkchunk a (c_sz x) false) post bins_a)) (snd (a_tail pre (mkchunk a (c_sz x) false) post bins_a))).
+      Rep he m' bins_c' (fst (a_tail pre (mkchunk a (c_sz x) false) post bins_a)) (snd (a_tail pre (mkchunk a (c_sz x) false) post bins_a)) /\
+      hframe (hdrs2 he (pre ++ x :: post) (fst (a_tail pre (mkchunk a (c_sz x) false) post bins_a))) m m').
   { pose proof (M_reflag hs he m m bins_c pre x post bins_a false HM Hxnot (fun _ _ _ => eq_refl) ltac:(discriminate)) as HM0.
     fold a in HM0.
-    apply (tail_sim hs he m bins_c pre (mkchunk a (c_sz x) false) post bins_a HM0 eq_refl Hxnot Htl0). }
+    destruct (tail_sim hs he m bins_c pre (mkchunk a (c_sz x) false) post bins_a HM0 eq_refl Hxnot Htl0) as (bc' & m' & Q1 & Q2 & Q3).
+    exists bc', m'. split; [exact Q1|]. split; [exact Q2|]. eapply hframe_mono; [|exact Q3].
+    intros h Hh. destruct Hh as [Hh | Hh]; [left | right; exact Hh]. unfold a in Hh. clear - Hh. hdr_solve. }
   destruct (split_last pre) as [[pre0 pv]|] eqn:Esl.
   - apply split_last_spec in Esl. subst pre.
     rewrite map_app in Hp1. cbn [map] in Hp1. rewrite last_last in Hp1. rewrite Hp1.
@@ -337,12 +380,12 @@ Proof.
     rewrite (Hflag pv Hpvin).
     destruct (c_used pv) eqn:Eupv; cbn [negb].
     + (* previous chunk used *)
-      rewrite Hnext_x. destruct Hnomerge as (bc' & m' & Htail & Hrep').
+      rewrite Hnext_x. destruct Hnomerge as (bc' & m' & Htail & Hrep' & Hfr').
       unfold c_tail in Htail.
       exists bc', m', (fst (a_tail (pre0 ++ [pv]) (mkchunk a (c_sz x) false) post bins_a)),
              (snd (a_tail (pre0 ++ [pv]) (mkchunk a (c_sz x) false) post bins_a)).
       split; [unfold a_tail; destruct post as [|nx post']; [reflexivity | destruct (c_used nx); reflexivity]|].
-      split; [|exact Hrep'].
+      split; [|split; [exact Hrep' | exact Hfr']].
       match goal with |- (let '(bins, m0) := ?t in _) = _ => destruct t as [bb mm0] eqn:Et end.
       cbv beta iota in Htail |- *. rewrite Htail. reflexivity.
     + (* previous chunk free: unlink it, let it absorb x *)
@@ -400,23 +443,40 @@ Proof.
             destruct (tiled_mid _ _ _ _ _ Ht) as (m0 & _ & Em0 & _ & _ & _ & Hq2).
             destruct (Hq2 nx (or_introl eq_refl)) as (? & _). fold a in Em0. lia.
           + apply Hcomp; assumption. }
-      destruct (tail_sim hs he m5 bc1 pre0 pv' post ba1 HM5 eq_refl Hpvnot Htl5) as (bc' & m' & Htail & Hrep').
+      destruct (tail_sim hs he m5 bc1 pre0 pv' post ba1 HM5 eq_refl Hpvnot Htl5) as (bc' & m' & Htail & Hrep' & Hfr').
       cbn [c_addr c_sz pv'] in Htail. unfold c_tail, remove_node in Htail.
       exists bc', m', (fst (a_tail pre0 pv' post ba1)), (snd (a_tail pre0 pv' post ba1)).
       split.
       { unfold a_tail, pv', ba1, nsz. fold pva. cbn [c_addr c_sz].
         destruct post as [|nx post']; [reflexivity | destruct (c_used nx); reflexivity]. }
-      split; [|exact Hrep'].
+      split.
+      2:{ split; [exact Hrep'|].
+        set (S := hdrs2 he ((pre0 ++ [pv]) ++ x :: post) (fst (a_tail pre0 pv' post ba1))).
+        assert (Sold : forall h, is_hdr he ((pre0 ++ [pv]) ++ x :: post) h -> S h) by (intros h Hh; left; exact Hh).
+        assert (Sa : S a) by (apply Sold; left; apply in_map; exact Hxin).
+        assert (Spv : S pva) by (apply Sold; left; apply in_map; exact Hpvin).
+        assert (Snn : S (pva + NODE + nsz)).
+        { apply Sold. pose proof (tiled_next _ _ _ _ _ Ht) as Hnn. fold a in Hnn.
+          replace (pva + NODE + nsz) with (a + NODE + c_sz x) by (unfold nsz; lia). rewrite <- Hnn. apply next_is_hdr. }
+        apply (hframe_trans S m m5).
+        - unfold m5, m3.
+          apply (hframe_step S a 24); [exact Sa | hk_solve | lia|].
+          apply (hframe_step S a 16); [exact Sa | hk_solve | lia|].
+          apply (hframe_step S (pva + NODE + nsz) 8); [exact Snn | hk_solve | lia|].
+          apply (hframe_step S pva 0); [exact Spv | hk_solve | lia|].
+          apply (M1_hframe S hs he m bins_c _ _ _ _ HM Hbi Hpvbin). exact Sold.
+        - eapply hframe_mono; [|exact Hfr']. intros h [Hh | Hh]; [|right; exact Hh].
+          apply Sold. unfold pv', pva in Hh. clear - Hh. hdr_solve. }
       fold m5.
       match goal with |- (let '(bins, m0) := ?t in _) = _ => destruct t as [bb mm0] eqn:Et end.
       cbv beta iota in Htail |- *. rewrite Htail. reflexivity.
   - apply split_last_none in Esl. subst pre. cbn [map last] in Hp1. rewrite Hp1. cbn [Z.eqb negb andb].
-    rewrite Hnext_x. destruct Hnomerge as (bc' & m' & Htail & Hrep').
+    rewrite Hnext_x. destruct Hnomerge as (bc' & m' & Htail & Hrep' & Hfr').
     unfold c_tail in Htail.
     exists bc', m', (fst (a_tail [] (mkchunk a (c_sz x) false) post bins_a)),
            (snd (a_tail [] (mkchunk a (c_sz x) false) post bins_a)).
     split; [unfold a_tail; destruct post as [|nx post']; [reflexivity | destruct (c_used nx); reflexivity]|].
-    split; [|exact Hrep'].
+    split; [|split; [exact Hrep' | exact Hfr']].
     match goal with |- (let '(bins, m0) := ?t in _) = _ => destruct t as [bb mm0] eqn:Et end.
     cbv beta iota in Htail |- *. rewrite Htail. reflexivity.
 Qed.
